@@ -206,3 +206,68 @@ PROPS.update({
         expected_probes=["message_consumed_by_element", "bracket_checked"],
         assumptions=["sampled, not exhaustive"]),
 })
+
+PROPS.update({
+    "C09": net_prop(
+        engine="net+asy",
+        technique=SIM_TECH + "; faults = shutdown / shutdown-and-restart requests injected into running models",
+        level_text="Seeded exploration with fault injection: shutdown(), shutdow_and_restart_in/at (restart delays incl. 0) are attached to "
+                   "scripted timers or to the n-th receive of 1..3 victim modules inside models with open-loop traffic, latency-only "
+                   "channels and transit gates owned by victims; a history checker derives the downtime intervals from the recorded requests "
+                   "and checks that nothing of a victim runs inside them, that reset / start-up stages happen exactly once at the "
+                   "requested instant, that messages are dropped iff a module on their way is down when they pass, and that all other "
+                   "traffic and timers are untouched.",
+        level_note="Trusted: the downtime history checker and the gate-graph model. Events at the exact shutdown / restart instant are accepted either way (the property does not rank them).",
+        runs={"quick": 20_000, "thorough": 2_000_000},
+        rule="multi-module models x shutdown/restart faults (from handlers, on n-th receive, several victims, up to 3 cycles each); "
+             "distinct = distinct program hash; non-trivial = a shutdown happened and a message or timer fell strictly inside the downtime",
+        fault_probes=["shutdown_cycles", "restart_completed", "message_or_timer_inside_downtime"],
+        expected_probes=["shutdown_cycles", "restart_completed", "message_or_timer_inside_downtime"],
+        assumptions=["only latency-only channel hops are predicted (busy channels are C07's subject)", "sampled, not exhaustive"]),
+    "C13": net_prop(
+        engine="net+asy",
+        technique=SIM_TECH + "; faults = panics injected into module callbacks; oracle = differential twin run",
+        level_text="Seeded exploration with fault injection: panics are placed in handle_message (on a scripted timer or on the n-th receive, "
+                   "while the handler holds the message), at_sim_start(stage) and at_sim_end of 1..3 modules with catching / non-catching "
+                   "stereotypes. Every run is compared with a twin run of the same program and seed in which the faulty module merely stops "
+                   "and ignores everything: all other modules must have identical histories; the victim must fall silent and be inactive; "
+                   "run() must report exactly the non-catching victims; a reference simulation run afterwards in the same process must equal "
+                   "its fresh-process trace.",
+        level_note="Trusted: the twin construction (victims send immediately only and own no transit gates, so 'fallen silent' is unambiguous).",
+        runs={"quick": 10_000, "thorough": 1_000_000},
+        rule="multi-module models x panic placements (module x callback x occurrence, several victims) x stereotypes; distinct = distinct "
+             "program hash; non-trivial = at least one module panicked and a healthy module kept working afterwards",
+        fault_probes=["module_panicked"],
+        expected_probes=["module_panicked"],
+        assumptions=["for joined-task panics only non-abort, attribution and isolation are demanded (DESIGN section 8)", "sampled, not exhaustive"]),
+    "C16": net_prop(
+        technique=SIM_TECH + "; faults = message loss at every place the system can lose a message",
+        level_text="Seeded exploration: 20 body types (primitives, String, Option/Result, Vec/VecDeque/array, Box, derived structs/enums incl. "
+                   "generic and nested ones, zero-sized, non-clonable) carry ledger tokens through models that lose messages on busy Drop "
+                   "channels, full queues, shut-down receivers, panicking handlers and limit stops; receivers and consuming elements apply "
+                   "generated sequences of typed read, wrong-type read / cast (incl. layout-compatible types), try_clone / clone, failed and "
+                   "successful casts. Every token must be dropped exactly once, values must come back unchanged, and Message::length must be "
+                   "64 + the independently computed declared length, which is also the size an idle channel is observed to charge.",
+        level_note="Trusted: the per-type length table written from the property text and the token ledger.",
+        runs={"quick": 20_000, "thorough": 2_000_000},
+        rule="body types x operation sequences x loss faults; distinct = distinct program hash; non-trivial = >= 1 clone, >= 1 failed cast and "
+             ">= 1 message lost to a fault",
+        fault_probes=["message_lost_to_fault", "failed_cast", "wrong_type_access"],
+        expected_probes=["message_lost_to_fault", "failed_cast", "wrong_type_access", "clone", "try_clone", "successful_cast", "length_vs_channel_time_checked"],
+        assumptions=["sampled, not exhaustive"]),
+    "C20": net_prop(
+        engine="net+asy",
+        technique=SIM_TECH + "; crash points = every way and (for small programs) every event index at which the simulation can be stopped and dropped",
+        level_text="Seeded exploration with crash-point enumeration: models with module trees, gate chains and rings, channels with backlog, "
+                   "processing elements, shut-down / restarted / panicking modules, all holding ledger tokens, are dropped before build, before "
+                   "start, after a time limit, after completion, after errors and - for every sampled program without its own limit - after "
+                   "EventCount(k) for every k up to 40; the result tuple is dropped in every order. Every token must have been dropped "
+                   "exactly once; afterwards a reference simulation in the same process must equal its fresh-process trace.",
+        level_note="Trusted: the token ledger. Programs are sampled; stop points of a sampled program are enumerated up to 40.",
+        runs={"quick": 5_000, "thorough": 500_000},
+        rule="generated simulations x stopping points; distinct = distinct program hash; non-trivial = some stop point left messages undelivered "
+             "(in the event set or in channel queues)",
+        fault_probes=["stop_point_enumerated", "dropped_before_build", "dropped_before_start", "ended_with_errors"],
+        expected_probes=["stop_point_enumerated", "dropped_before_build", "dropped_before_start", "ended_with_errors"],
+        assumptions=["sampled programs; stop points enumerated per program up to a bound"]),
+})
